@@ -206,6 +206,7 @@ type GenConfig struct {
 	AsInit bool
 
 	noContractCalls bool
+	callFloor       int // Bounded: lowest contract index this code may call
 	size            int // rough byte budget used so far
 }
 
@@ -360,7 +361,7 @@ func (g *GenConfig) drawTarget(t *rapid.T, label string, forCall bool) Target {
 	case 0:
 		lo := 0
 		if g.Bounded && forCall {
-			lo = g.Self + 1 // acyclic call graph
+			lo = g.callFloor // acyclic call graph
 			if lo >= nc {
 				return Target{Kind: TgtSelf}.orMissing(forCall)
 			}
@@ -541,8 +542,9 @@ func (g *GenConfig) blockWeights(nest int) []int {
 	if g.Bounded || g.Monotone {
 		w[KRaw] = 0
 	}
-	if g.Bounded && (g.Self != 0 || g.noContractCalls == false) {
-		// recursion in bounded mode is decided up front for contract 0 (see DrawProgram)
+	if g.Bounded {
+		// recursion in bounded mode is decided up front for contract 0 and inserted
+		// exactly once at top level (see drawProgram)
 		w[KRecurse] = 0
 	}
 	if g.Self < 0 {
@@ -1040,6 +1042,10 @@ func DrawRaw(t *rapid.T, f Fork, max int) []byte {
 func DrawProgram(t *rapid.T, g *GenConfig) *Program {
 	cp := *g
 	cp.defaults()
+	cp.callFloor = cp.Self + 1
+	if cp.Self < 0 {
+		cp.callFloor = len(cp.Contracts) // standalone bounded code calls no generated contract
+	}
 	return drawProgram(t, &cp)
 }
 
